@@ -26,6 +26,7 @@ Record outspec := mkOut { o_rule : N; o_arg : N; o_dt : N; o_type : N; o_size : 
 Record row := mkRow { r_draws : list N; r_mem : list (N * N * N); r_outs : list outspec }.
 Record prog := mkProg {
   p_lps : N; p_ncls : N; p_target : N; p_seed : N;
+  p_plmode : N;                            (* 1: the first 32 payload bytes depend on the event type only (payload ties beyond byte 32) *)
   p_targets : list (N * N);                (* per-LP override of the target: (lp, target) *)
   p_inits : list (N * N * N * N);          (* lp, ticks, type, size *)
   p_rows : list (N * N * row)              (* (type, class) -> row *)
@@ -46,11 +47,13 @@ Record event := mkEv { e_dest : N; e_t : N; e_type : N; e_pl : list N }.
 Fixpoint bytes_le (n : nat) (x : N) : list N :=
   match n with O => [] | S k => N.land x 255 :: bytes_le k (N.shiftr x 8) end.
 
-Fixpoint payload_words (k : nat) (a base : N) : list N :=
-  match k with O => [] | S k' => bytes_le 8 (mix a base) ++ payload_words k' a (base + 1) end.
+Fixpoint payload_words (k : nat) (idx : N) (f : N -> N) : list N :=
+  match k with O => [] | S k' => bytes_le 8 (f idx) ++ payload_words k' (idx + 1) f end.
 
-Definition make_payload (a j sz : N) : list N :=
-  firstn (N.to_nat sz) (payload_words (N.to_nat ((sz + 7) / 8)) a (j * 16 + 1)).
+Definition make_payload (mode a j sz ty : N) : list N :=
+  firstn (N.to_nat sz)
+    (payload_words (N.to_nat ((sz + 7) / 8)) 0
+       (fun k => if (mode =? 1) && (k <? 4) then mix (ty + 1000) (k + 1) else mix a (j * 16 + 1 + k))).
 
 (* ---- payload digest on receipt: 8-byte little-endian words, the last one zero padded ---- *)
 Fixpoint word_of (bs : list N) (n : nat) : N :=
@@ -122,7 +125,7 @@ Definition dest_of (p : prog) (me a : N) (o : outspec) : N :=
 Fixpoint make_outs (p : prog) (me now a : N) (j : N) (os : list outspec) : list event :=
   match os with
   | [] => []
-  | o :: r => mkEv (dest_of p me a o) (now + o_dt o) (o_type o) (make_payload a j (o_size o))
+  | o :: r => mkEv (dest_of p me a o) (now + o_dt o) (o_type o) (make_payload (p_plmode p) a j (o_size o) (o_type o))
               :: make_outs p me now a (j + 1) r
   end.
 
@@ -133,7 +136,7 @@ Definition lp_init (p : prog) (me : N) : lpstate * list event :=
   let fix go (j : N) (l : list (N * N * N * N)) :=
     match l with
     | [] => []
-    | (_, t, ty, sz) :: r => mkEv me t ty (make_payload a0 j sz) :: go (j + 1) r
+    | (_, t, ty, sz) :: r => mkEv me t ty (make_payload (p_plmode p) a0 j sz ty) :: go (j + 1) r
     end in
   (mkLp a0 0 [None; None; None; None] (rng_init me (p_seed p)), go 0 inits).
 
